@@ -29,7 +29,8 @@ META = dict(
           "axis), with the pathway's own widths when they are given and the calculator's otherwise, the zero response for "
           "an empty pathway, and to leave calculator and pathway untouched: the calculated shape is linear in the "
           "prefactor, so the fourth-power scaling and the signs of the prefactors carry over to the spectrum."),
-    note=("gaussian2D / lorentzian2D are uninterpreted functions of (x[i], centre, width, y[j], centre, width); "the closed form of the Haar average over SO(3), (1/30) sum_rs Fe_r M_rs Fd_s with the pairings (12)(34), (13)(24), "
+    note=("gaussian2D / lorentzian2D are uninterpreted functions of (x[i], centre, width, y[j], centre, width); "
+          "the closed form of the Haar average over SO(3), (1/30) sum_rs Fe_r M_rs Fd_s with the pairings (12)(34), (13)(24), "
           "(14)(23), is a classical result taken as the specification (it is cross-checked by quadrature over Euler angles "
           "in the native oracle); total = rephasing + non-rephasing, additivity for uncoupled molecules and the "
           "cancellation of cross peaks need the whole response calculators and are not under contract."),
